@@ -127,11 +127,11 @@ Qed.
 
 (* setting (adding, changing) the section of another language does not change the report of a file *)
 Theorem override_scope q k v s rest f :
-  String.eqb (f_ext f) (ext_of (f_lang f)) = true -> other_lang_key (f_lang f) k = true ->
+  ext_ok (f_lang f) (f_ext f) = true -> other_lang_key (f_lang f) k = true ->
   report q (("srp", (k, VSec v) :: s) :: rest) f = report q (("srp", s) :: rest) f.
 Proof.
-  intros He Hk. apply String.eqb_eq in He. unfold report, report_sec. rewrite He.
-  destruct (ext_dispatch (f_lang f)) as [E1 E2]. rewrite E1, E2.
+  intros He Hk. unfold report, report_sec.
+  destruct (ext_dispatch (f_lang f) (f_ext f) He) as [E1 E2]. rewrite E1, E2.
   change (section_of (("srp", (k, VSec v) :: s) :: rest)) with ((k, VSec v) :: s).
   change (section_of (("srp", s) :: rest)) with s.
   now rewrite !from_dict_spec, spec_conf_other_lang.
